@@ -77,9 +77,10 @@ Definition check_case (c : case) : list string :=
   match c with
   | Case k tr =>
       let ops := map fst tr in
-      let guard := no_restart_b ops && no_expiry k ops in
+      let g3 := no_expiry k ops in
+      let g1 := no_restart_b ops && g3 in
       corr k init tr ++
-      map (fun nb => nat_tag (fst nb)) (filter (fun nb => negb (snd nb)) (holds_clauses k guard (impl_frames (Some fresh) tr))) ++
+      map (fun nb => nat_tag (fst nb)) (filter (fun nb => negb (snd nb)) (holds_clauses k g1 g3 (impl_frames (Some fresh) tr))) ++
       (if timing_ok k then [] else ["oracle:cache-ttl-exceeds-liveness-timeouts"])
   end.
 
